@@ -1,0 +1,19 @@
+//! Helpers to deserialize untrusted bytes without trusting the lengths they
+//! announce.
+
+use cosmian_crypto_core::bytes_ser_de::Deserializer;
+
+use crate::Error;
+
+/// Reads a length-prefixed vector of bytes, checking the announced length
+/// against the number of bytes that remain to be read *before* allocating.
+pub(crate) fn read_vec(de: &mut Deserializer) -> Result<Vec<u8>, Error> {
+    let announced_length = Deserializer::new(de.value()).read_leb128_u64()?;
+    if u64::try_from(de.value().len()).map_or(false, |remaining| remaining < announced_length) {
+        return Err(Error::ConversionFailed(format!(
+            "cannot read a vector of {announced_length} bytes: only {} bytes remain",
+            de.value().len()
+        )));
+    }
+    de.read_vec().map_err(Error::from)
+}
